@@ -125,6 +125,11 @@ func referenceInner(size int64, spec string) expect {
 	if !ok {
 		return expect{[]outcome{ignore}, "garbage:no-dash"}
 	}
+	if first != "" && strings.Trim(first, " \t") == "" {
+		// blanks only before the dash: with the blanks dropped (a lenient, arguable reading) this is the suffix form
+		first = ""
+		last = strings.Trim(last, " \t")
+	}
 	if first == "" {
 		// suffix form -n: legal HTTP, not implemented by the gateway: both readings accepted
 		if allDigits(last) {
@@ -149,6 +154,10 @@ func referenceInner(size int64, spec string) expect {
 			return expect{[]outcome{ignore}, "garbage:first"}
 		}
 		first, amb = t, true
+	}
+	if last != "" && strings.Trim(last, " \t") == "" {
+		// blanks only behind the dash: with the blanks dropped this is the open-ended form a-
+		last, amb = "", true
 	}
 	if last != "" && !allDigits(last) {
 		t, ok := lenientNum(last)
@@ -289,7 +298,7 @@ func matches(o outcome, start, length int64, valid bool, isErr bool, size int64)
 func laneDirect(c *ev.Ctx) {
 	r := c.Rng("direct")
 	sizes := []int64{0, 1, 2, 10, 4096, 1 << 31, math.MaxInt64}
-	n := c.Pick(30000, 2000000)
+	n := c.Pick(30000, 6000000)
 	check := func(id string, size int64, h string) {
 		start, length, valid, err := backend.ParseGetObjectRange(size, h)
 		e := reference(size, h)
@@ -355,7 +364,7 @@ func laneE2E(c *ev.Ctx) {
 		}
 	}
 	sizes := []int64{0, 1, 2, 100, 70000}
-	n := c.Pick(500, 8000)
+	n := c.Pick(500, 40000)
 	one := func(id string, size int64, h string, head bool) {
 		obj := objs[size]
 		key := fmt.Sprintf("o%d", size)
